@@ -15,6 +15,7 @@
    Partial: the composition into "replica invariant preserved by verify_and_apply_proof" (byte offsets,
    storage) and Ed25519 unforgeability itself are not proved; the alteration enumeration of tools/c04.py
    covers the composition on every run. *)
+From HC Require Import Liveness LivenessEx.
 From HC Require Import AnyReopenA AnyReopenB AnyReopenC AnyReopenD AnyReopen1 AnyReopen2.
 From HC Require Import AlterRefused.
 From HC Require Import AnyProofLib AnyProofUp AnyProof.
@@ -587,6 +588,182 @@ Theorem C04_any_history_with_reopen_content :
          some_collision cr \/ forged_signature cr bs (kp_public (c_keypair c)).
 Proof. exact any_history_with_reopen_content. Qed.
 
+Theorem C04_accepted_proof_keeps_convergence_invariant :
+  forall cr : crypto,
+         OplogFacts.crc_ok cr ->
+         (forall x : bytes, Datatypes.length (cr_hash cr x) = 32%nat) ->
+         (forall x : bytes, all_zero (cr_hash cr x) = false) ->
+         (forall x : bytes, bytes_ok (cr_hash cr x) = true) ->
+         forall bs : list bytes,
+         writer_fits bs ->
+         forall (f : option bool) (pf : proof) (c : core) (d : disk) (j : list sop) 
+           (ev : list event) (H : N -> bool) (c' : core) (w' : world),
+         AcceptAllCore3.RCInv cr bs c d H ->
+         ReplicaDisk3.rd_proof_ok pf ->
+         core_apply_proof cr f pf c {| w_disk := d; w_journal := j; w_events := ev |} = (c', w', Ok true) ->
+         AcceptAllCore3.RCInv cr bs c' (w_disk w') (ReplicaDisk3.hold H (p_block pf)) /\
+         c_keypair c' = c_keypair c /\ t_length (c_tree c) <= t_length (c_tree c') \/
+         some_collision cr \/ forged_signature cr bs (kp_public (c_keypair c)).
+Proof. exact apply_keeps_RCInv. Qed.
+
+Theorem C04_then_complete :
+  forall cr : crypto,
+         OplogFacts.crc_ok cr ->
+         (forall x : bytes, Datatypes.length (cr_hash cr x) = 32%nat) ->
+         (forall x : bytes, all_zero (cr_hash cr x) = false) ->
+         (forall x : bytes, bytes_ok (cr_hash cr x) = true) ->
+         forall bs : list bytes,
+         writer_fits bs ->
+         forall (f : option bool) (pf : proof) (c : core) (d : disk) (j : list sop) 
+           (ev : list event) (H : N -> bool) (c' : core) (w' : world) (r : res bool),
+         AcceptAllCore3.RCInv cr bs c d H ->
+         ReplicaDisk3.rd_proof_ok pf ->
+         core_apply_proof cr f pf c {| w_disk := d; w_journal := j; w_events := ev |} = (c', w', r) ->
+         answered r ->
+         (r <> Ok true -> c' = c /\ w' = {| w_disk := d; w_journal := j; w_events := ev |}) /\
+         (forall i : N, H i = true -> core_has c' i = true) /\
+         (forall (i : N) (j2 : list sop) (ev2 : list event),
+          core_has c' i = true ->
+          core_get i c' {| w_disk := w_disk w'; w_journal := j2; w_events := ev2 |} =
+          (c', {| w_disk := w_disk w'; w_journal := j2; w_events := ev2 |}, Ok (Some (TreeRef.blk bs i)))) /\
+         completes cr bs c' w' (adv_held H pf r) \/
+         some_collision cr \/ forged_signature cr bs (kp_public (c_keypair c)).
+Proof. exact C04_then_complete. Qed.
+
+Theorem C04_history_then_complete :
+  forall cr : crypto,
+         OplogFacts.crc_ok cr ->
+         (forall x : bytes, Datatypes.length (cr_hash cr x) = 32%nat) ->
+         (forall x : bytes, all_zero (cr_hash cr x) = false) ->
+         (forall x : bytes, bytes_ok (cr_hash cr x) = true) ->
+         forall bs : list bytes,
+         writer_fits bs ->
+         forall (ss : list lev) (c : core) (d : disk) (j : list sop) (ev : list event) 
+           (H : N -> bool) (c' : core) (w' : world),
+         AcceptAllCore3.RCInv cr bs c d H ->
+         lhist cr bs ss c {| w_disk := d; w_journal := j; w_events := ev |} ->
+         lrun cr ss c {| w_disk := d; w_journal := j; w_events := ev |} = Some (c', w') ->
+         (exists H' : N -> bool,
+            (forall i : N, H i = true -> core_has c' i = true) /\
+            (forall i : N, lrequested ss i -> core_has c' i = true) /\
+            (forall i : N, core_has c' i = H' i) /\
+            (forall (i : N) (j2 : list sop) (ev2 : list event),
+             core_has c' i = true ->
+             core_get i c' {| w_disk := w_disk w'; w_journal := j2; w_events := ev2 |} =
+             (c', {| w_disk := w_disk w'; w_journal := j2; w_events := ev2 |}, Ok (Some (TreeRef.blk bs i)))) /\
+            c_keypair c' = c_keypair c /\
+            t_length (c_tree c) <= t_length (c_tree c') /\
+            t_byte_length (c_tree c') = TreeRef.prefix_size bs (t_length (c_tree c')) /\
+            completes cr bs c' w' H') \/ some_collision cr \/ forged_signature cr bs (kp_public (c_keypair c)).
+Proof. exact C04_history_then_complete. Qed.
+
+Theorem C04_fresh_history_then_complete :
+  forall cr : crypto,
+         OplogFacts.crc_ok cr ->
+         (forall x : bytes, Datatypes.length (cr_hash cr x) = 32%nat) ->
+         (forall x : bytes, all_zero (cr_hash cr x) = false) ->
+         (forall x : bytes, bytes_ok (cr_hash cr x) = true) ->
+         forall bs : list bytes,
+         writer_fits bs ->
+         forall (kp : keypair) (ss : list lev),
+         OplogFacts.keypair_ok kp = true ->
+         kp_secret kp = None ->
+         exists (d0 : disk) (ops0 : list sop) (c0 : core),
+           core_open cr (Some kp) false disk_empty = (d0, ops0, Ok c0) /\
+           (lhist cr bs ss c0 {| w_disk := d0; w_journal := []; w_events := [] |} ->
+            forall (c' : core) (w' : world),
+            lrun cr ss c0 {| w_disk := d0; w_journal := []; w_events := [] |} = Some (c', w') ->
+            (exists H' : N -> bool,
+               (forall i : N, lrequested ss i -> core_has c' i = true) /\
+               (forall i : N, core_has c' i = H' i) /\
+               (forall (i : N) (j2 : list sop) (ev2 : list event),
+                core_has c' i = true ->
+                core_get i c' {| w_disk := w_disk w'; w_journal := j2; w_events := ev2 |} =
+                (c', {| w_disk := w_disk w'; w_journal := j2; w_events := ev2 |}, Ok (Some (TreeRef.blk bs i)))) /\
+               t_byte_length (c_tree c') = TreeRef.prefix_size bs (t_length (c_tree c')) /\
+               completes cr bs c' w' H') \/ some_collision cr \/ forged_signature cr bs (kp_public kp)).
+Proof. exact C04_fresh_history_then_complete. Qed.
+
+Theorem C04_history_progress :
+  forall cr : crypto,
+         OplogFacts.crc_ok cr ->
+         (forall x : bytes, Datatypes.length (cr_hash cr x) = 32%nat) ->
+         (forall x : bytes, all_zero (cr_hash cr x) = false) ->
+         (forall x : bytes, bytes_ok (cr_hash cr x) = true) ->
+         forall bs : list bytes,
+         writer_fits bs ->
+         forall (ss : list lev) (c : core) (d : disk) (j : list sop) (ev : list event) (H : N -> bool),
+         AcceptAllCore3.RCInv cr bs c d H ->
+         lhist cr bs ss c {| w_disk := d; w_journal := j; w_events := ev |} ->
+         lrun cr ss c {| w_disk := d; w_journal := j; w_events := ev |} = None ->
+         (exists (pre : list lev) (f : option bool) (pf : proof) (post : list lev) 
+          (c1 : core) (w1 : world),
+            ss = pre ++ LAdv f pf :: post /\
+            lrun cr pre c {| w_disk := d; w_journal := j; w_events := ev |} = Some (c1, w1) /\
+            died (snd (core_apply_proof cr f pf c1 w1))) \/
+         some_collision cr \/ forged_signature cr bs (kp_public (c_keypair c)).
+Proof. exact lrun_progress. Qed.
+
+Theorem C04_liveness_fails_after_size_carveout :
+  exists (c : core) (w : world) (H : N -> bool) (f : option bool) (pf : proof) 
+         (c' : core) (w' : world),
+           AcceptAllCore3.RCInv sc_cr sc_blocks c (w_disk w) H /\
+           (p_block pf = None /\
+            p_seek pf = None /\ p_upgrade pf = None /\ (exists h : data_hash, p_hash pf = Some h)) /\
+           core_apply_proof sc_cr f pf c w = (c', w', Ok true) /\
+           (exists (es : list AcceptAllHist.revent) (c2 : core) (w2 : world),
+              FrameGuard.hist_all_ng sc_cr sc_blocks es c' w' /\
+              AcceptAllHist.run sc_cr es c' w' = Some (c2, w2) /\
+              AcceptAllHist.requested es 3 /\
+              core_has c2 3 = true /\
+              snd (core_get 3 c2 w2) = Ok (Some [0; 5; 6; 7]) /\ TreeRef.blk sc_blocks 3 = [5; 6; 7; 8]) /\
+           (forall H' : N -> bool, ~ completes sc_cr sc_blocks c' w' H').
+Proof. exact liveness_fails_after_size_carveout. Qed.
+
+Theorem C04_liveness_fails_after_additional_nodes_carveout :
+  exists
+           (c : core) (w : world) (f : option bool) (pf : proof) (u : data_upgrade) 
+         (c' : core) (w' : world),
+           (exists ops : list sop,
+              core_open sc_cr (Some {| kp_public := sc_key; kp_secret := None |}) false disk_empty =
+              (w_disk w, ops, Ok c)) /\
+           AcceptAllCore3.RCInv sc_cr sc_blocks c (w_disk w) (fun _ : N => false) /\
+           (p_block pf = None /\
+            p_hash pf = None /\ p_seek pf = None /\ p_upgrade pf = Some u /\ du_additional u <> []) /\
+           core_apply_proof sc_cr f pf c w = (c', w', Ok true) /\
+           (exists (es : list AcceptAllHist.revent) (c2 : core) (w2 : world),
+              FrameGuard.hist_all_ng sc_cr sc_blocks es c' w' /\
+              AcceptAllHist.run sc_cr es c' w' = Some (c2, w2) /\
+              AcceptAllHist.requested es 3 /\
+              core_has c2 3 = true /\
+              snd (core_get 3 c2 w2) = Ok (Some [0; 5; 6; 7]) /\ TreeRef.blk sc_blocks 3 = [5; 6; 7; 8]) /\
+           (forall H' : N -> bool, ~ completes sc_cr sc_blocks c' w' H').
+Proof. exact liveness_fails_after_additional_nodes_carveout. Qed.
+
+Theorem C04_history_then_complete_example :
+  AcceptAllCore3.RCInv sc_cr sc_blocks AcceptAllEx.scR_c (w_disk AcceptAllEx.scR_w) (fun _ : N => false) /\
+         lhist sc_cr sc_blocks ly_ss AcceptAllEx.scR_c AcceptAllEx.scR_w /\
+         lrun sc_cr ly_ss AcceptAllEx.scR_c AcceptAllEx.scR_w = Some (ly4_c, ly4_w) /\
+         FrameGuard.hist_all_ng sc_cr sc_blocks ly_es ly4_c ly4_w /\
+         (core_has ly4_c 3 = true /\
+          (forall (i : N) (j2 : list sop) (ev2 : list event),
+           core_has ly4_c i = true ->
+           core_get i ly4_c {| w_disk := w_disk ly4_w; w_journal := j2; w_events := ev2 |} =
+           (ly4_c, {| w_disk := w_disk ly4_w; w_journal := j2; w_events := ev2 |},
+            Ok (Some (TreeRef.blk sc_blocks i)))) /\
+          (exists (c2 : core) (w2 : world),
+             AcceptAllHist.run sc_cr ly_es ly4_c ly4_w = Some (c2, w2) /\
+             core_has c2 5 = true /\
+             core_has c2 2 = true /\
+             core_has c2 3 = true /\
+             (forall (i : N) (j2 : list sop) (ev2 : list event),
+              core_has c2 i = true ->
+              core_get i c2 {| w_disk := w_disk w2; w_journal := j2; w_events := ev2 |} =
+              (c2, {| w_disk := w_disk w2; w_journal := j2; w_events := ev2 |},
+               Ok (Some (TreeRef.blk sc_blocks i))))) \/
+          some_collision sc_cr \/ forged_signature sc_cr sc_blocks (kp_public (c_keypair AcceptAllEx.scR_c))).
+Proof. exact ly_history_then_complete_applies. Qed.
+
 Print Assumptions C04_block_value_sound.
 Print Assumptions C04_climb_sound.
 Print Assumptions C04_leaf_hash_binds.
@@ -642,3 +819,11 @@ Print Assumptions C04_any_outcome_keeps_reopen_invariant_on_disk.
 Print Assumptions C04_reopen_invariant_content.
 Print Assumptions C04_any_history_with_reopen_sound.
 Print Assumptions C04_any_history_with_reopen_content.
+Print Assumptions C04_accepted_proof_keeps_convergence_invariant.
+Print Assumptions C04_then_complete.
+Print Assumptions C04_history_then_complete.
+Print Assumptions C04_fresh_history_then_complete.
+Print Assumptions C04_history_progress.
+Print Assumptions C04_liveness_fails_after_size_carveout.
+Print Assumptions C04_liveness_fails_after_additional_nodes_carveout.
+Print Assumptions C04_history_then_complete_example.
